@@ -194,6 +194,82 @@ Proof.
   destruct (hex_byte b Hb) as [x [y [Hx [Hy E]]]]. rewrite Hx, Hy, IH, E. reflexivity.
 Qed.
 
+(* ---------------- schema delta ---------------- *)
+(* one column: whatever changed of its name and type, the statements emitted for it turn the old
+   definition into the new one (a column renamed AND retyped gets both statements) *)
+Theorem col_ddl_roundtrip old c :
+  c_id old = c_id c -> apply_ddls [old] (col_ddl [old] c) = [c].
+Proof.
+  intros E. unfold col_ddl. cbn [find_col]. rewrite E, N.eqb_refl.
+  destruct old as [i n t], c as [i' n' t']. cbn [c_id c_name c_ty] in *. subst i'.
+  destruct (n =? n') eqn:En; destruct (t =? t') eqn:Et; cbn [app apply_ddls fold_left apply_ddl map c_id];
+    rewrite ?N.eqb_refl; unfold set_name, set_ty; cbn [c_id c_name c_ty];
+    try (apply N.eqb_eq in En; subst n'); try (apply N.eqb_eq in Et; subst t'); reflexivity.
+Qed.
+
+Definition is_add (d : ddl) : N := match d with DAdd _ => 1 | _ => 0 end.
+Definition is_drop (d : ddl) : N := match d with DDrop _ => 1 | _ => 0 end.
+Definition is_ren (d : ddl) : N := match d with DRename _ _ => 1 | _ => 0 end.
+Definition is_mod (d : ddl) : N := match d with DModify _ _ => 1 | _ => 0 end.
+Definition dsum (f : ddl -> N) (l : list ddl) : N := fold_right (fun d acc => f d + acc) 0 l.
+Lemma dsum_cons f d l : dsum f (d :: l) = f d + dsum f l. Proof. reflexivity. Qed.
+Lemma dsum_app f l1 l2 : dsum f (l1 ++ l2) = dsum f l1 + dsum f l2.
+Proof. induction l1 as [|d l1 IH]; [reflexivity|]. cbn [app]. rewrite !dsum_cons, IH. lia. Qed.
+
+Lemma ddl_counts_acc l : forall a dr r m,
+  fold_left (fun acc d => let '(a, dr, r, m) := acc in
+                          match d with DAdd _ => (a + 1, dr, r, m) | DDrop _ => (a, dr + 1, r, m)
+                                     | DRename _ _ => (a, dr, r + 1, m) | DModify _ _ => (a, dr, r, m + 1) end)
+            l (a, dr, r, m)
+  = (a + dsum is_add l, dr + dsum is_drop l, r + dsum is_ren l, m + dsum is_mod l).
+Proof.
+  induction l as [|d l IH]; intros a dr r m.
+  - cbn [fold_left dsum fold_right]. rewrite !N.add_0_r. reflexivity.
+  - cbn [fold_left]. rewrite !dsum_cons. destruct d; rewrite IH; cbn [is_add is_drop is_ren is_mod].
+    all: match goal with |- (?a1, ?b1, ?c1, ?d1) = (?a2, ?b2, ?c2, ?d2) =>
+           replace a1 with a2 by lia; replace b1 with b2 by lia; replace c1 with c2 by lia; replace d1 with d2 by lia; reflexivity end.
+Qed.
+
+Lemma n_cols_cons f c s : n_cols f (c :: s) = (if f c then 1 else 0) + n_cols f s.
+Proof. unfold n_cols. cbn [filter]. destruct (f c); cbn [length]; lia. Qed.
+
+Lemma dsum_drops f sb sa :
+  (forall id, f (DDrop id) = 0) -> dsum f (map (fun c => DDrop (c_id c)) (filter (fun c => negb (has_id (c_id c) sb)) sa)) = 0.
+Proof.
+  intros H. induction sa as [|c sa IH]; [reflexivity|]. cbn [filter]. destruct (negb (has_id (c_id c) sb)); [|exact IH].
+  cbn [map]. rewrite dsum_cons, H, IH. reflexivity.
+Qed.
+Lemma dsum_drops_count sb sa :
+  dsum is_drop (map (fun c => DDrop (c_id c)) (filter (fun c => negb (has_id (c_id c) sb)) sa))
+  = n_cols (fun c => negb (has_id (c_id c) sb)) sa.
+Proof.
+  induction sa as [|c sa IH]; [reflexivity|]. rewrite n_cols_cons. cbn [filter].
+  destruct (negb (has_id (c_id c) sb)); [cbn [map]; rewrite dsum_cons, IH; reflexivity | rewrite IH; lia].
+Qed.
+
+Lemma dsum_cols sa sb :
+  dsum is_add (flat_map (col_ddl sa) sb) = n_cols (fun c => negb (has_id (c_id c) sa)) sb /\
+  dsum is_drop (flat_map (col_ddl sa) sb) = 0 /\
+  dsum is_ren (flat_map (col_ddl sa) sb)
+    = n_cols (fun c => match find_col (c_id c) sa with Some o => negb (c_name o =? c_name c) | None => false end) sb /\
+  dsum is_mod (flat_map (col_ddl sa) sb)
+    = n_cols (fun c => match find_col (c_id c) sa with Some o => negb (c_ty o =? c_ty c) | None => false end) sb.
+Proof.
+  induction sb as [|c sb [I1 [I2 [I3 I4]]]]; [repeat split; reflexivity|].
+  cbn [flat_map]. rewrite !dsum_app, !n_cols_cons, I1, I2, I3, I4. unfold col_ddl, has_id.
+  destruct (find_col (c_id c) sa) as [o|]; [|cbn; repeat split; lia].
+  destruct (c_name o =? c_name c); destruct (c_ty o =? c_ty c); cbn; repeat split; lia.
+Qed.
+
+(* the patch has exactly one ADD / DROP / RENAME / MODIFY statement per column added / dropped /
+   renamed / retyped *)
+Theorem ddl_counts_spec sa sb : ddl_counts (schema_patch sa sb) = schema_delta_counts sa sb.
+Proof.
+  unfold ddl_counts, schema_patch, schema_delta_counts. rewrite ddl_counts_acc, !dsum_app.
+  destruct (dsum_cols sa sb) as [I1 [I2 [I3 I4]]]. rewrite I1, I2, I3, I4, dsum_drops_count.
+  rewrite !dsum_drops by reflexivity. rewrite !N.add_0_l, N.add_0_r. reflexivity.
+Qed.
+
 (* ---------------- the oracle holds on the model ---------------- *)
 Lemma is_diff_b_diff a b : is_diff_b a b (diff a b) = true.
 Proof.
@@ -216,8 +292,9 @@ Qed.
 
 Theorem oracle_on_model i : oracle i (model_obs i) = true.
 Proof.
-  unfold oracle, model_obs. cbn [o_diff o_diffsys o_rt o_rt_ok o_lits].
-  rewrite lits_ok_model, andb_true_r. cbn [andb]. rewrite andb_true_r. apply andb_true_iff. split.
+  unfold oracle, model_obs. cbn [o_diff o_diffsys o_rt o_rt_ok o_lits o_ddl].
+  rewrite lits_ok_model, andb_true_r. cbn [andb]. rewrite andb_true_r. apply andb_true_iff. split; [apply andb_true_iff; split|].
+  2: { rewrite ddl_counts_spec. destruct (schema_delta_counts (i_sa i) (i_sb i)) as [[[x1 x2] x3] x4]. cbn [ddl_eqb]. rewrite !N.eqb_refl. reflexivity. }
   - destruct (i_schema i); [reflexivity|]. cbn [orb].
     assert (D : diff_obs_ok (i_a i) (i_b i) (map (fun e => (e, dtype e)) (diff (i_a i) (i_b i))) = true).
     { unfold diff_obs_ok. rewrite map_map. cbn [fst]. rewrite map_id, is_diff_b_diff. cbn [andb].
